@@ -79,6 +79,8 @@ class Engine:
         self.lambda_index = {}
         for name, parent in self.src.exception_classes().items():
             L.register_exception(name, parent.split('.')[-1])
+            if L.EXC_PARENT.get(name) != parent.split('.')[-1]:
+                L.EXC_PARENT[name] = parent.split('.')[-1]      # the tree under check decides, every run
         from .pymodel import PyModel
         from .calls import Calls
         from .loops import Loops
@@ -134,6 +136,8 @@ class Engine:
             if kind == 'import':
                 return self.resolve_import(ex, v)
             if kind == 'const':
+                if name in self.src.mutable_globals.get(module, ()):
+                    return ex.global_cell(module, name)
                 return self.global_const(ex, module, name, v)
         if name in BUILTIN_NAMES:
             return St('builtin', name)
@@ -204,7 +208,9 @@ class Engine:
             v = ex.eval(node, Env())
             ex.cur_module = saved
         else:
-            raise Unsupported('module constant %s.%s of kind %s' % (module, name, type(node).__name__))
+            # e.g. a compiled pattern, a cache object: opaque, and whatever is done with it is an unmodelled call
+            v = L.OpaqueV(L.OK['other'], z3.Int('G_%s_%s' % (module, name)))
+            ex.event('opaque_module_constant', module, name)
         cache[(module, name)] = v
         return v
 
